@@ -425,6 +425,6 @@ def serde_delegation_check(idx):
     if len([k for k in idx if re.search(r'impl (<.*> )?(Into<String> for Decimal|From<Decimal> for String)$', k)]) != 1:
         raise AnchorLost('serde-as-str: more than one conversion Decimal -> String')
     tf = rsx.ws_norm(vgen.strip_attrs_and_comments(idx['from_str::impl TryFrom<String> for Decimal::try_from'].text))
-    if not re.search(r'\{\s*Self::from_str\(lit\.as_str\(\)\)\s*\}$', tf):
+    if not re.search(r'\{\s*(?:Self|Decimal|<Decimal as (?:core::str::)?FromStr>)::from_str\(\s*&?\s*[a-z_][a-z0-9_]*\.as_str\(\)\s*\)\s*\}$', tf):
         raise AnchorLost('serde-as-str: TryFrom<String> for Decimal is not Self::from_str(lit.as_str())')
     return True
